@@ -13,10 +13,10 @@ import (
 
 func init() {
 	register(&propDef{
-		ID:    "C20",
-		Level: "other",
+		ID:      "C20",
+		Level:   "other",
 		Explain: "Access-logging safety and structure: (P*) every bounds check the Go compiler's prove pass cannot eliminate in the access logger (logger.go, pattern.go) and in the request-path formatters (proxy.uint16base16, proxy.i32toa, uuid.ToString) is either discharged by a checker rule (slice bounds from Index*/LastIndex* under a dominating >= 0 test, Split indices under length facts) or matches an entry of a reviewed residual table keyed by (function, indexed object) with its reason; anything else is reported — so a new unguarded index on the logging path cannot appear silently; the logging path contains no explicit panic, type assertion other than on the pool, integer division by a computed value or map write; (U1) every calendar accessor (Year..Second, Nanosecond, Month, Day) feeding a field that prints a fixed UTC suffix is applied to a value derived from time.Time.UTC() — in the renderer or where the event handed to the renderers is built; (F1) every field named in the package documentation is a key of the fields table and both named formats use only known fields or $header.*; (O1) ServeHTTP calls Logger.Log at most once per path, after the inner handler returned, with Request/Response/RequestURL/UpstreamURL set and UpstreamAddr taken from the target URL's host; (I1) nothing in package logger can reach the response writer (no parameter, field or result of type http.ResponseWriter); (B1) the pooled buffer goes Get -> Reset -> write -> Put and the shared writer is used under the logger's mutex. (E1) no renderer writes a decoded URL component (url.URL.Path/Fragment) into the line; (N1) no negation of a signed value of at most 32 bits in its own width (wrong for the minimum); Not decided: agreement of atoi, i32toa, uint16base16, uuid.ToString and the time renderers with strconv/fmt/time on every value (numeric/string equality over value domains).",
-		Run:   runC20,
+		Run:     runC20,
 		Trusted: []string{"soundness of the compiler's prove pass", "time.Time.Month() is in 1..12; time.Time accessors of a UTC time describe UTC", "the residual table in checker/c20.go (reviewed, one reason per entry)"},
 		Mutants: []mutant{
 			{Name: "request url rendered from the decoded path", File: "logger/pattern.go", Old: "\t\tb.WriteString(e.RequestURL.String())\n", New: "\t\tb.WriteString(e.RequestURL.Scheme + \"://\" + e.RequestURL.Host + e.RequestURL.Path)\n", Expect: "C20.E1"},
@@ -39,16 +39,16 @@ func init() {
 // Residual table: unproved bounds checks that are accepted with a reviewed reason.
 // Key: function (or enclosing function for closures) + "|" + indexed object.
 var c20Residual = map[string]string{
-	"logger.atoi|d":                   "d is a [128]byte scratch; at most 20 digits + pad (<= 9) + sign are written from the end, p stays in [97,127]",
-	"logger.init|shortMonthNames":     "index is time.Time.Month(), in 1..12 by the time package's contract; the table has 13 entries",
-	"logger.parse|s":                  "n is the item length returned by lex, 0 < n <= len(s) by construction of lex",
-	"logger.parse|val":                "val starts with \"$header.\" whenever lex returns itemHeader (state machine), so len(val) >= len(\"$header.\")",
-	"logger.lex|s":                    "s[:i] with i the index of the rune being ranged over",
-	"proxy.uint16base16|digit16":      "index is a 4-bit value (n & mask >> shift), digit16 has 16 entries",
-	"proxy.uint16base16|b":            "b is the 6-byte literal \"0x0000\"; constant indices 2..5",
-	"proxy.i32toa|buf":                "buf is [11]byte; an int32 has at most 10 digits + sign, pos counts down from 11",
-	"uuid.ToString|halfbyte2hexchar":  "index is a 4-bit value ((x >> 4) & 0x0f or x & 0x0f), the table has 16 entries",
-	"uuid.ToString|b":                 "b is [36]byte; n ranges over the constant offset table {0,...,34}, so n and n+1 are <= 35",
+	"logger.atoi|d":                  "d is a [128]byte scratch; at most 20 digits + pad (<= 9) + sign are written from the end, p stays in [97,127]",
+	"logger.init|shortMonthNames":    "index is time.Time.Month(), in 1..12 by the time package's contract; the table has 13 entries",
+	"logger.parse|s":                 "n is the item length returned by lex, 0 < n <= len(s) by construction of lex",
+	"logger.parse|val":               "val starts with \"$header.\" whenever lex returns itemHeader (state machine), so len(val) >= len(\"$header.\")",
+	"logger.lex|s":                   "s[:i] with i the index of the rune being ranged over",
+	"proxy.uint16base16|digit16":     "index is a 4-bit value (n & mask >> shift), digit16 has 16 entries",
+	"proxy.uint16base16|b":           "b is the 6-byte literal \"0x0000\"; constant indices 2..5",
+	"proxy.i32toa|buf":               "buf is [11]byte; an int32 has at most 10 digits + sign, pos counts down from 11",
+	"uuid.ToString|halfbyte2hexchar": "index is a 4-bit value ((x >> 4) & 0x0f or x & 0x0f), the table has 16 entries",
+	"uuid.ToString|b":                "b is [36]byte; n ranges over the constant offset table {0,...,34}, so n and n+1 are <= 35",
 }
 
 type astIndexSite struct {
@@ -133,8 +133,8 @@ func runC20(c *Ctx) {
 func runC20P(c *Ctx) {
 	type scope struct {
 		pkg   string
-		files map[string]bool   // base names; empty = all
-		funcs map[string]bool   // function names; empty = all in files
+		files map[string]bool // base names; empty = all
+		funcs map[string]bool // function names; empty = all in files
 	}
 	scopes := []scope{
 		{"logger", map[string]bool{"logger.go": true, "pattern.go": true}, nil},
